@@ -1375,6 +1375,7 @@ sexp sexp_sub (sexp ctx, sexp a, sexp b) {
 #if SEXP_USE_FLONUMS
   int negatep=0;
 #endif
+  sexp_sint_t diff;
   int at=sexp_number_type(a), bt=sexp_number_type(b);
   sexp r=SEXP_VOID;
   sexp_gc_var2(tmp1, tmp2);
@@ -1400,7 +1401,12 @@ sexp sexp_sub (sexp ctx, sexp a, sexp b) {
     r = sexp_type_exception(ctx, NULL, SEXP_NUMBER, b);
     break;
   case SEXP_NUM_FIX_FIX:
-    r = sexp_fx_sub(a, b);      /* VM catches this case */
+    /* the VM catches this case, but other C callers may overflow */
+    diff = sexp_unbox_fixnum(a) - sexp_unbox_fixnum(b);
+    if ((diff < SEXP_MIN_FIXNUM) || (diff > SEXP_MAX_FIXNUM))
+      r = sexp_sub(ctx, tmp1=sexp_fixnum_to_bignum(ctx, a), b);
+    else
+      r = sexp_make_fixnum(diff);
     break;
   case SEXP_NUM_FIX_FLO:
     r = sexp_make_flonum(ctx, a==SEXP_ZERO ? -sexp_flonum_value(b) : sexp_fixnum_to_double(a)-sexp_flonum_value(b));
